@@ -552,22 +552,28 @@ def run(ctx, only_cases=None):
     nfail = 0
     reported = set()
     by_flag = {}
-    for idx, (c, o) in enumerate(judged):
-        if o["prop_ok"]:
-            continue
+    # attribution of failures of the in-memory backend to probed deviations: smallest set of non-repaired flags whose
+    # repair (in the model) changes the answers; two deviations can mask each other (pinned SetExpiration(k,0) then
+    # pinned CAS), so singles first, then pairs, ...   One batch through the extracted model.
+    nonrep = [f for f in FLAGS if not flags[f]]
+    subsets = [ss for r in range(1, len(nonrep) + 1) for ss in itertools.combinations(nonrep, r)]
+    failing = [idx for idx, (c, o) in enumerate(judged) if not o["prop_ok"]]
+    explain = [idx for idx in failing if judged[idx][0]["mode"] == "mem" and idx not in bad_impl and res]
+    trial = [case_value(0, dict(flags, **{f: True for f in ss}), judged[idx][0]["tol"], judged[idx][0]["ops"], judged[idx][1]["obs"])
+             for idx in explain for ss in subsets]
+    tres = vlib.model_eval("C13", trial) if trial else []
+    attributed = {}
+    for n, idx in enumerate(explain):
+        row = tres[n * len(subsets):(n + 1) * len(subsets)]
+        involved = [ss for ss, ok in zip(subsets, row) if not ok]
+        if involved:
+            attributed[idx] = FLAG_KEY[involved[0][0]]
+    for idx in failing:
+        c, o = judged[idx]
         nfail += 1
-        key = o["prop_key"]
-        if c["mode"] == "mem" and idx not in bad_impl and res:
-            # MemImpl(probed) explains the real answers: which known deviation is responsible?
-            # smallest set of probed deviations whose repair (in the model) changes the answers; two deviations can mask
-            # each other (pinned SetExpiration(k,0) then pinned CAS), so singles first, then pairs, ...
-            nonrep = [f for f in FLAGS if not flags[f]]
-            subsets = [ss for r in range(1, len(nonrep) + 1) for ss in itertools.combinations(nonrep, r)]
-            trial = [case_value(0, dict(flags, **{f: True for f in ss}), c["tol"], c["ops"], o["obs"]) for ss in subsets]
-            involved = [ss for ss, ok in zip(subsets, vlib.model_eval("C13", trial) if trial else []) if not ok]
-            if involved:
-                key = FLAG_KEY[involved[0][0]]
-                by_flag[key] = by_flag.get(key, 0) + 1
+        key = attributed.get(idx, o["prop_key"])
+        if idx in attributed:
+            by_flag[key] = by_flag.get(key, 0) + 1
         if key in reported:
             continue
         reported.add(key)
